@@ -27,6 +27,8 @@ type Link struct {
 	// unreliable side channel
 	uc2s, us2c pipe
 	HasUnrel   bool
+	// HoldClientWrites: the client's reliable writes block (back pressure) until it is reset
+	HoldClientWrites bool
 	Params     transport.NegotiationParams
 }
 
@@ -87,6 +89,9 @@ func (e *End) Read() ([]byte, error) {
 
 func (e *End) Write(b []byte) error {
 	vsched.Yield("h:write:" + e.name)
+	if e == e.l.Client && e.l.HoldClientWrites {
+		vsched.WaitUntil("write-held:"+e.name, func() bool { return !e.l.HoldClientWrites || e.closed || e.wr.broken })
+	}
 	if e.closed {
 		return transport.ErrAlreadyClosed
 	}
